@@ -1332,6 +1332,13 @@ class TTNS(TTNBase):
         -------
         The new TTNS.
         """
+        if not np.allclose(self.coeff, other.coeff):
+            # fold the different prefactors into the tensors first (as Mps.add does)
+            ttns1 = self.scale(self.coeff)
+            ttns1.coeff = 1
+            ttns2 = other.scale(other.coeff)
+            ttns2.coeff = 1
+            return ttns1.add(ttns2)
         new = self.metacopy()
         for new_node, node1, node2 in zip(new, self, other):
             new_shape = []
